@@ -13,7 +13,8 @@ HOOKS = {
 ENGINES = [
     {"name": "solvex", "path": "vf/solvex.py",
      "kind_free_text": "stateless deviation-bounded explorer of dfols.solve under an owned environment (objective "
-                       "answers, nsamples callback and RNG draws are choice points); written for this task"},
+                       "answers, nsamples callback, RNG draws and the package's declared linear-algebra failures are choice "
+                       "points); written for this task"},
     {"name": "modelx", "path": "vf/modelx.py",
      "kind_free_text": "explicit-state breadth-first search over the public operations of dfols.model.Model with a "
                        "shadow reference model; canonicalised state de-duplication"},
@@ -27,7 +28,9 @@ NOTES = ("Every solve-level (solvex) check also runs its monitors over the broad
          "the smallest and largest accepted value of every numeric parameter) and must reach every call site of "
          "Controller.evaluate_objective found in the tree's AST, or name the site as exempt with a reason "
          "(coverage.evaluation_sites in the evidence). All checks execute the implementation in /repo directly (sys.path[0]=/repo, fresh import per process); "
-         "exit 0 = held on everything explored, 1 = VIOLATION lines, 2 = harness error. VERIF_SEED selects one of 8 "
+         "The declared linear-algebra failure (LinAlgError out of Model.solve_geom_system inside the package's own try blocks) is a "
+         "fourth kind of choice point: every such call answered 'singular' once, in 15 restart/feature modes (C01-C04, C09-C11, "
+         "C18, C20). exit 0 = held on everything explored, 1 = VIOLATION lines, 2 = harness error. VERIF_SEED selects one of 8 "
          "pre-validated data salts; thorough runs all 8.")
 
 NOT_APPLICABLE = {}
@@ -143,15 +146,20 @@ CHECKS = {
         "engine": "gridx", "level": "exploration",
         "text": "g letters^n x scale x 7 Hessian families x delta decades x ALL 5^n bound patterns x two current points, n<=3 "
                 "(4 thorough): exact box feasibility, ball, no model increase, Cauchy decrease (independent Cauchy point), "
-                "returned gradient",
-        "note": "Python kernels only (Fortran trustregion package not installed); property quantifies to n=8",
+                "returned gradient; plus a frozen bank of 1447 explicit instances (n=2..6, indefinite / negative definite / "
+                "low-rank H) selected from a deterministic candidate stream so that every iteration event and every ordered "
+                "pair of iteration events of the CG and boundary loops seen among 300000 candidates is exhibited at least "
+                "twice (vf/pathcov.py; the evidence reports the path items covered on the tree under test)",
+        "note": "Python kernels only (Fortran trustregion package not installed); property quantifies to n=8; the path bank "
+                "is an alphabet chosen by coverage, enumerated in full on every run - nothing is drawn at check time",
         "technique": "exhaustive enumeration of an input-shape alphabet on the real kernel, exact oracles",
     },
     "C13": {
         "engine": "gridx", "level": "exploration",
         "text": "(a) box geometry solver over c x g^n x Delta x all 5^n patterns (incl. degenerate) against the global maximum "
                 "found on the clipped ray by bisection; (b) ctrsbox_pgd / ctrsbox_geometry / ctrsbox_sfista over a bank of 8 "
-                "set geometries (three defined relative to Delta); (c) Controller.trust_region_step on controllers built by "
+                "set geometries (three defined relative to Delta) and over ALL pairs of constraints from a family of 24 normals "
+                "x 3 offsets of half-spaces + 4 off-centre balls cutting the trust region; (c) Controller.trust_region_step on controllers built by "
                 "the real solve() with L1/L2 regularisers and perturbed models: predicted reduction never negative",
         "note": "n<=3 (a), n=2 (b,c)",
         "technique": "exhaustive enumeration of input-shape alphabets on the real kernels, exact (KKT) oracle for (a)",
@@ -159,7 +167,7 @@ CHECKS = {
     "C14": {
         "engine": "gridx", "level": "exploration",
         "text": "(a) every per-coordinate placement of x0 (12 letters)^n x rhobeg x gap x npt, n<=3, solve run with maxfun=npt; "
-                "(b) both direction generators over all active-set patterns {lower==0, upper==0, tight, far}^n, n<=4 x "
+                "(b) both direction generators over all active-set patterns {lower==0, upper==0, tight, active-and-narrow (both sides), far}^n, n<=4 x "
                 "requested counts x six RNG answer menus",
         "note": "RNG owned by the harness; the 2*delta 'extra directions for active constraints' of the orthogonal generator "
                 "are a recorded known finding",
